@@ -743,20 +743,17 @@ class HfProtocol(utils.EventEmitter):
         # Append to the read buffer.
         self.read_buffer.extend(data)
 
-        while self.read_buffer:
-            # Locate header and trailer.
-            header = self.read_buffer.find(b'\r\n')
-            trailer = self.read_buffer.find(b'\r\n', header + 2)
-            if header == -1 or trailer == -1:
-                return
-
-            # Isolate the AT response code and parameters.
-            raw_response = self.read_buffer[header + 2 : trailer]
+        # Result codes are framed as <CR><LF>code<CR><LF>: split on <CR><LF> and skip
+        # the empty lines, so that a truncated result code cannot shift the framing
+        # of everything that follows.
+        while (end := self.read_buffer.find(b'\r\n')) != -1:
+            # Isolate the AT response code and parameters, and consume the bytes.
+            raw_response = self.read_buffer[:end]
+            self.read_buffer = self.read_buffer[end + 2 :]
+            if not raw_response:
+                continue
             response = AtResponse.parse_from(raw_response)
-            logger.debug(f"<<< {raw_response.decode()}")
-
-            # Consume the response bytes.
-            self.read_buffer = self.read_buffer[trailer + 2 :]
+            logger.debug(f"<<< {raw_response!r}")
 
             # Forward the received code to the correct queue.
             if self.pending_command and (
